@@ -9,6 +9,7 @@ from vf import explore as XP
 from vf.explore import Summary
 from vf.native import tag_num
 from .common import *
+from .funcjob import choose_from
 
 class SerVal:
     """a value of the serde data model: (kind, ...)"""
